@@ -1,5 +1,5 @@
 (* Properties/C20.v — Every discovered target gets a series estimate; failed probes are retried. *)
-From KV Require Import Base.Util Base.AMap Base.Float64 Model.Coordinator Model.Explore Proofs.ExploreProofs.
+From KV Require Import Base.Util Base.AMap Base.Float64 Gen.Consts Model.Coordinator Model.Explore Proofs.ExploreProofs.
 Local Open Scope list_scope.
 
 (* For every number of workers and every sequence of Get / discovery updates / reloads / probe completions (success or
@@ -50,6 +50,14 @@ Theorem C20_failed_probe : forall s id,
   e_health (obj s' id) = Bad /\ e_err (obj s' id) = true /\ In id (x_timers s').
 Proof. exact failed_probe_is_unhealthy. Qed.
 Print Assumptions C20_failed_probe.
+
+(* the model's do_get / fire always append to the queue: in the code these are plain channel sends (they may block, they
+   never drop the entry) on a channel of the capacity read off the source; regenerated on every run by the translator.
+   The differential run cannot fill 10000 slots, so this tie is syntactic. *)
+Theorem C20_queue_never_drops :
+  explore_get_send_blocking = true /\ explore_retry_send_blocking = true /\ (1 <= explore_queue_capacity)%N.
+Proof. repeat split; try reflexivity. discriminate. Qed.
+Print Assumptions C20_queue_never_drops.
 
 (* "at most one probe per TARGET" is false of the faithful model (and of the code): a target dropped from the table
    while its probe runs, re-added and asked for again has two probes in flight — the known finding, replayed on the
